@@ -60,7 +60,9 @@ func (gi *gitlabImporter) ImportAll(ctx context.Context, repo *cache.RepoCache, 
 	go func() {
 		defer close(out)
 
-		for issue := range Issues(ctx, gi.client, gi.conf[confKeyProjectID], since) {
+		issues, issuesErr := Issues(ctx, gi.client, gi.conf[confKeyProjectID], since)
+
+		for issue := range issues {
 
 			b, err := gi.ensureIssue(repo, issue)
 			if err != nil {
@@ -94,6 +96,11 @@ func (gi *gitlabImporter) ImportAll(ctx context.Context, repo *cache.RepoCache, 
 				out <- core.NewImportError(err, "")
 				return
 			}
+		}
+
+		if err := <-issuesErr; err != nil {
+			err := fmt.Errorf("issue listing: %v", err)
+			out <- core.NewImportError(err, "")
 		}
 	}()
 
